@@ -6,15 +6,22 @@ import os
 import random
 import shutil
 import tempfile
+import time
 import zipfile
 
 from harness.common import Ck, coq_list, coq_str, coq_bytes, parse_coq_N_list
 from translate import c19_walk
 
 MANIFEST = dict(
-    technique='Rocq proof (backends as operation lists refining one folded-name map; walk_folder exactness for the sound folder forms; chain first-match / priority / de-duplication laws) + ast translator of every normalisation and folder test + vm_compute correspondence + differential oracle over four real backends and chains',
-    text='Theorems in Props/C19.v, generic over a backend record of normalisation operations: any two backends whose key functions are of a recognised case/slash-insensitive form agree with each other and with the specification map (folded name -> last stored file) on _get_file, _file_exists and open_bin; the directory backend agrees on exact names; walk_folder with a sound folder form lists exactly the surviving files whose folded name has the folded folder as a path prefix (empty folder = all), every listed name looks up to that file, no name twice; FileSystemChain._get_file returns the first member that has the name, priority insertion puts a member first, restricted members are asked for prefix/name, the de-duplicated walk lists each folded name once keeping the first member\'s entry. The plain string-prefix, root-is-dot, case-sensitive and relpath forms of the pinned tree are refuted by kernel-computed witnesses. The operation lists of today\'s filesys.py are regenerated on every run and the premises are discharged as named instance obligations; the generated model is compared with the real Virtual/Zip/VPK/Raw backends and chains on generated file sets; a reference oracle checks the property end to end on the four real backends and on chains of up to 4 members in all orderings.',
-    note='Trusted: Coq kernel + vm_compute, translate/c19_walk.py, zipfile, the VPK writer of vpk.py, the OS directory semantics (RawFileSystem is described, not derived: exact names via os.path.isfile/os.walk). Model restrictions: ASCII case folding only; stored names are clean relative paths with forward slashes; queries are case/slash variants (no "." / ".." / doubled slashes except in the normpath correspondence). The proof that dropping the prefix segments yields the name relative to the prefix for every walked file is not mechanised (refutation witness for relpath + correspondence + oracle only). Which of two stored names differing only in case wins depends on container order (theorem c19_lookup_order_matters_for_case_duplicates); VPK regroups files, see known findings.',
+    technique='Rocq proof (backends as translated operation lists refining one folded-name map for every query string; walk_folder exactness for the sound folder forms; RawFileSystem lookup/walk from its translated operations; chain first-match / priority / prefix / de-duplication laws and their composition: every entry of the chain walk is what the chain lookup returns, and conversely) + fail-closed ast translator of every normalisation, folder test, walk source, add_sys branch and de-duplication shape + instance obligations and an instance theorem at the generated configuration + vm_compute correspondence over the four real backends and chains + differential oracle',
+    text='Theorems in Props/C19.v, generic over a backend record of normalisation operations regenerated from filesys.py on every run. '
+         'Lookup: backends whose query functions convert the slashes, normalise the path and fold the case (today\'s source, obligation *_keys_normalise_every_spelling) agree with each other and with the specification map (folded name -> last stored file) on _get_file, _file_exists and open_bin for EVERY query string; empty and "." segments, either slash and letter case are proved insignificant (c19_normpath_noise, c19_lookup_noise_insensitive); any other recognised form agrees on queries normpath leaves alone (c19_lookup_agree); the pinned forms are refuted on "./x" and ".\\x". '
+         'RawFileSystem, from the operations that reach _resolve_path: an exact-case name in any spelling and either slash finds the stored file in the directory backend and in every folding backend; its walk lists exactly the files below the normalised folder and every listed name looks up. '
+         'walk_folder with a sound form (dictionary source, folded key compared with a folder-boundary prefix) lists exactly the surviving files inside the folder (empty folder = all), every listed name looks up to that file, no name twice; string-prefix, root-is-dot, case-sensitive, container-prefilter (VPK.fileinfos) and container-iteration forms are refuted by kernel-computed witnesses. '
+         'FileSystemChain: _get_file returns the first member that has the name; priority insertion first / plain insertion last (both add_sys branches translated); restricted members are asked for prefix/name; the de-duplicated walk lists each folded name once keeping the first member\'s entry, the dict-overwrite shape is refuted. '
+         'Composition (c19_chain_walk_lookup_closed, c19_chain_walk_complete): for any list of sound members with empty or clean prefixes and an empty or clean folder, every (path, File) the de-duplicated walk lists is exactly what chain[path] returns (first member wins, listed names look up), and every clean name inside the folder that the chain serves is listed with that File; the theorem is re-instantiated at the generated configuration on every run. '
+         'The generated model is compared with the real Virtual/Zip/VPK/Raw backends (lookups in all spellings, walks of normalised and un-normalised folders) and with chains (lookup, walk_folder, walk_folder_repeat); a reference oracle written from the property checks the four real backends and chains of up to 4 members in all orderings, plus non-ASCII case folding for the in-memory and zip backends.',
+    note='Trusted: Coq kernel + vm_compute, translate/c19_walk.py, zipfile, the VPK writer of vpk.py (and VPK.fileinfos only through a shape check), the OS directory semantics (RawFileSystem: exact names via os.path.isfile/open/os.walk after abspath; RootEscapeError belongs to C18). Model restrictions: ASCII case folding only in the model (non-ASCII casefold is searched on the in-memory and zip backends; VPK names are ASCII); stored names are clean relative "/" paths; ".." segments are modelled (full posixpath.normpath) and compared by correspondence but the general noise theorem covers only empty and "." segments; the composition theorems assume empty or clean prefixes and folders (other spellings: correspondence and oracle); absolute paths are outside the statement. Which of two stored names differing only in case wins depends on container order (c19_lookup_order_matters_for_case_duplicates); VPK regroups files, see known finding case-duplicate-winner-vpk-differs. Observations (not violations): RawFileSystem.open_bin of a directory raises IsADirectoryError where the others raise FileNotFoundError; File.path of a lookup differs per backend.',
 )
 
 IMPORTS = ['Coq.Lists.List', 'Coq.NArith.NArith', 'Coq.Bool.Bool', 'SV.SM.FsChain', 'SV.Gen.FsWalk_gen']
@@ -28,14 +35,35 @@ Definition obs (b : backend) (fs : list file) (qs folders : list str) : list (li
   [map (fun q => code (lookup b fs q)) qs; map (fun q => if exists_ b fs q then [1] else [0]) qs; map (fun q => code (open_ b fs q)) qs]
   ++ map (fun f => map fst (walk b fs f)) folders.
 Definition cfg_of (k : N) : backend := match k with 0 => virtual_cfg | 1 => zip_cfg | _ => vpk_cfg end.
-Definition raw_obs (fs : list file) (qs : list str) : list (list N) := map (fun q => code (raw_lookup fs q)) qs.
+Definition raw_obs (fs : list file) (qs folders : list str) : list (list (list N)) :=
+  [map (fun q => code (raw_lookup_ops raw_get_ops fs q)) qs;
+   map (fun q => match raw_lookup_ops raw_exists_ops fs q with Some _ => [1] | None => [0] end) qs;
+   map (fun q => code (raw_lookup_ops raw_open_ops fs q)) qs]
+  ++ map (fun f => map fst (raw_walk raw_walk_ops fs f)) folders.
 Definition mk_chain (ms : list ((N * list file * str) * bool)) : list member :=
-  fold_left (fun acc x => add_sys chain_prio_index (snd x) (member_of (cfg_of (fst (fst (fst x)))) (snd (fst (fst x))) (snd (fst x))) acc) ms [].
+  fold_left (fun acc x => add_sys2 chain_prio_action chain_plain_action (snd x) (member_of (cfg_of (fst (fst (fst x)))) (snd (fst (fst x))) (snd (fst x))) acc) ms [].
 Definition ordered (ms : list member) (fwd : bool) := if fwd then ms else rev ms.
 Definition chain_obs (ms : list ((N * list file * str) * bool)) (qs folders : list str) : list (list (list N)) :=
   let c := mk_chain ms in
   [map (fun q => code (chain_get (ordered c chain_get_forward) q)) qs]
-  ++ map (fun f => flat_map (fun x => [fst x; snd (snd x)]) (chain_walk chain_relmode chain_dedup_ops (ordered c chain_walk_forward) f)) folders.
+  ++ map (fun f => flat_map (fun x => [fst x; snd (snd x)]) (chain_walk_mode chain_dedup_mode chain_relmode chain_dedup_ops (ordered c chain_walk_forward) f)) folders
+  ++ map (fun f => flat_map (fun x => [fst x; snd (snd x)]) (chain_walk_repeat chain_relmode (ordered c chain_walk_forward) f)) folders.
+'''
+
+INSTANCE_THEOREM = '''Import ListNotations.
+Definition gen_member (m : member) : Prop :=
+  exists b fs p, In b [virtual_cfg; zip_cfg; vpk_cfg] /\\ m = member_of b fs p /\\ clean_fs fs = true /\\ okp p.
+Theorem today_chain_walk_lookup_closed : forall ms folder x,
+  Forall gen_member ms -> okp folder ->
+  In x (chain_walk_mode chain_dedup_mode chain_relmode chain_dedup_ops ms folder) ->
+  chain_get ms (fst x) = Some (snd x).
+Proof.
+  intros ms folder x Hms Hf Hin.
+  apply (c19_chain_walk_lookup_closed chain_dedup_ops ms folder x); [vm_compute; reflexivity| |exact Hf|exact Hin].
+  eapply Forall_impl; [|exact Hms]. intros m [b [fs [p [Hb [-> [Hc Hp]]]]]]. exists b, fs, p.
+  split; [reflexivity|]. destruct Hb as [<-|[<-|[<-|[]]]]; (split; [vm_compute; reflexivity|]); (split; [vm_compute; reflexivity|]); split; assumption.
+Qed.
+Print Assumptions today_chain_walk_lookup_closed.
 '''
 
 BACKENDS = ['virtual', 'zip', 'vpk', 'raw']
@@ -88,6 +116,31 @@ def spellings(rng: random.Random, name: str) -> list[str]:
     return list(dict.fromkeys(res))
 
 
+def path_spellings(rng: random.Random, name: str, is_file: bool = True) -> list[tuple[str, str]]:
+    """(spelling, class): the same path written with redundant separators or dot segments, with either slash."""
+    segs = name.split('/')
+    out = [('./' + name, 'dot-segment')]
+    if len(segs) > 1:
+        i = rng.randrange(1, len(segs))
+        out.append(('/'.join(segs[:i]) + '//' + '/'.join(segs[i:]), 'doubled-slash'))
+        out.append(('/'.join(segs[:i]) + '/./' + '/'.join(segs[i:]), 'dot-segment'))
+        out.append(('/'.join(segs[:i]) + '/../' + '/'.join(segs[i - 1:]), 'dotdot-segment'))
+    else:
+        out.append((name + '/../' + name, 'dotdot-segment'))
+    out.append((name + '/', 'trailing-slash'))
+    out.append((name + '/.', 'dot-segment'))
+    res = []
+    for sp, cls in out:
+        res.append((sp, cls))
+        res.append((sp.replace('/', '\\'), cls + '-backslash'))
+    if not is_file:
+        res = [(sp, cls) for sp, cls in res if not cls.startswith('trailing-slash') or '\\' in sp]
+    return res
+
+
+NORM_CLASSES = ('dot-segment', 'doubled-slash', 'dotdot-segment', 'trailing-slash')
+
+
 def folder_candidates(rng: random.Random, files) -> list[tuple[str, str]]:
     """(folder argument, class of the argument)."""
     out: list[tuple[str, str]] = [('', 'root')]
@@ -108,6 +161,10 @@ def folder_candidates(rng: random.Random, files) -> list[tuple[str, str]]:
         first = d.split('/')[0]
         if len(first) > 2:
             out.append((first[:2], 'partial-name'))
+    for d in sorted(dirs)[:4]:
+        for sp, cls in path_spellings(rng, d, is_file=False):
+            out.append((sp, 'unnormalised-' + cls))
+    out += [('.', 'unnormalised-root'), ('./', 'unnormalised-root'), ('.\\', 'unnormalised-root-backslash')]
     for nm, _ in files[:3]:
         out.append((nm, 'file-name'))
     out.append(('nonexistent', 'missing'))
@@ -177,7 +234,9 @@ def impl_lookup(fs, q):
     try:
         with fs.open_bin(q) as fh:
             op = fh.read()
-    except FileNotFoundError:
+    except (FileNotFoundError, IsADirectoryError):
+        # RawFileSystem.open_bin(<a directory>) raises IsADirectoryError where the others raise FileNotFoundError:
+        # an observation (docs/C19.md), the name is reported as not being a file either way
         op = None
     except Exception as e:      # noqa: BLE001
         op = f'{type(e).__name__}'
@@ -199,13 +258,33 @@ def spec_map(files) -> dict[str, list[tuple[str, bytes]]]:
     return m
 
 
+def _pfx(pfx: str) -> str:
+    """The folded subfolder a member is restricted to ('' = unrestricted); './sub', 'sub/.', 'sub/' all mean 'sub'."""
+    p = os.path.normpath(fold(pfx)) if pfx else ''
+    return '' if p == '.' else p.rstrip('/')
+
+
 def spec_inside(folder: str, name: str) -> bool:
     """The file `name` is located inside `folder` (case and slash kind insignificant; '' = everything)."""
     f = fold(folder).rstrip('/')
+    if f and set(f.split('/')) & {'', '.', '..'}:
+        # redundant separators and dot segments do not change which folder is meant
+        f = os.path.normpath(f)
+        f = '' if f == '.' else f
     return f == '' or fold(name).startswith(f + '/')
 
 
 # ------------------------------------------------------------------------------------------------ correspondence
+def _parallel(fn, items, workers: int = 4):
+    """Evaluate independent coqc batches concurrently (each batch has its own scratch name); results in input order."""
+    from concurrent.futures import ThreadPoolExecutor
+    items = list(items)
+    if len(items) <= 1:
+        return [fn(x) for x in items]
+    with ThreadPoolExecutor(max_workers=workers) as ex:
+        return list(ex.map(fn, items))
+
+
 def _code(x) -> str:
     return coq_bytes(b'\x00') if x is None else '[' + ';'.join(['1'] + [str(c) for c in x]) + ']%N'
 
@@ -215,7 +294,7 @@ def _files_lit(files) -> str:
 
 
 def corr_backends(ck: Ck, root: str) -> None:
-    n = ck.budget(90, 900)
+    n = ck.budget(40, 400)
     cases = []
     for i in range(n):
         rng = ck.rng
@@ -228,10 +307,15 @@ def corr_backends(ck: Ck, root: str) -> None:
             for nm, _ in rng.sample(files, min(3, len(files))):
                 sp = spellings(rng, nm)
                 qs += rng.sample(sp, min(3, len(sp)))
-            qs += ['nonexistent.txt', files[0][0] + 'x', files[0][0].split('/')[0]]
+            for nm, _ in rng.sample(files, min(2, len(files))):
+                ps = [q for q, _ in path_spellings(rng, nm)]
+                qs += rng.sample(ps, min(3, len(ps)))
+                qs.append(_recase(rng, rng.choice(ps)))
+            qs = rng.sample(qs, min(12, len(qs)))
+            qs += ['nonexistent.txt', files[0][0] + 'x', files[0][0].split('/')[0], './nonexistent', '', '.']
             qs = list(dict.fromkeys(qs))
             fc = folder_candidates(rng, files)
-            folders = [f for f, _ in rng.sample(fc, min(6, len(fc)))]
+            folders = [f for f, _ in rng.sample(fc, min(7, len(fc)))]
             if '' not in folders:
                 folders.append('')
             for k, name in enumerate(['virtual', 'zip', 'vpk']):
@@ -257,31 +341,53 @@ def corr_backends(ck: Ck, root: str) -> None:
                 ck.hist('corr_backend', name)
                 if len(files) > 1 and any(w for w in walks):
                     ck.seen(('corr', name, tuple(a for a, _ in fl), tuple(qs), tuple(folders)))
-            # raw: exact names (and normpath variants)
-            rq = [nm for nm, _ in files] + [nm.upper() for nm, _ in files[:2]] + ['./' + files[0][0], files[0][0].replace('/', '//')]
-            rres = [impl_lookup(bt.fs['raw'], q) for q in rq]
-            if not any(isinstance(x, str) for r in rres for x in r):
-                cases.append((f'((3, {_files_lit(files)}), ({coq_list(coq_str(q) for q in rq)}, []), {coq_list([coq_list(_code(r[1]) for r in rres)])})',
-                              {'backend': 'raw', 'files': [(a, b.decode()) for a, b in files], 'queries': rq,
-                               'impl_lookup': [None if r[1] is None else r[1].decode() for r in rres]}))
+            # raw: the same queries and folders (exact-case semantics; os.walk's order is the OS's: listed names are
+            # put into stored order, anything unexpected is kept so that it shows as a disagreement)
+            rres = [impl_lookup(bt.fs['raw'], q) for q in qs]
+            order = {nm: i for i, (nm, _) in enumerate(files)}
+            rwalks = []
+            for f in folders:
+                w = impl_walk(bt.fs['raw'], f)
+                rwalks.append(w if isinstance(w, str) else sorted(w, key=lambda p: (order.get(p, len(order)), p)))
+            if not any(isinstance(x, str) for r in rres for x in r) and not any(isinstance(w, str) for w in rwalks):
+                exp = coq_list([coq_list(_code(r[1]) for r in rres),
+                                coq_list(('[1]%N' if r[0] else '[0]%N') for r in rres),
+                                coq_list(_code(r[2]) for r in rres)]
+                               + [coq_list(coq_str(p) for p in w) for w in rwalks])
+                cases.append((f'((3, {_files_lit(files)}), ({coq_list(coq_str(q) for q in qs)}, {coq_list(coq_str(f) for f in folders)}), {exp})',
+                              {'backend': 'raw', 'files': [(a, b.decode()) for a, b in files], 'queries': qs, 'folders': folders,
+                               'impl_lookup': [(r[0], None if r[1] is None else r[1].decode(), None if r[2] is None else r[2].decode()) for r in rres],
+                               'impl_walk': rwalks}))
                 ck.count('corr_raw_cases')
+                ck.count('corr_backend_observations', 3 * len(qs) + len(folders))
+                ck.hist('corr_backend', 'raw')
+            else:
+                ck.violation('exception-raw', 'raw backend raised an unexpected exception',
+                             {'files': [(a, b.decode()) for a, b in files], 'queries': qs, 'folders': folders,
+                              'results': repr(rres), 'walks': repr(rwalks)})
         finally:
             bt.close()
     if cases:
         ck.sample({'correspondence_case': cases[min(5, len(cases) - 1)][1]})
     bad: list[int] = []
-    for lo in range(0, len(cases), 120):
-        part = cases[lo:lo + 120]
+    _t0 = time.time()
+
+    def batch(lo: int):
+        part = cases[lo:lo + 60]
         lit = coq_list(c for c, _ in part)
         expr = ('bad_idx (fun c : (N * list file) * (list str * list str) * list (list (list N)) => '
-                'match fst (fst (fst c)) with 3 => l3_eqb [raw_obs (snd (fst (fst c))) (fst (snd (fst c)))] (snd c) '
+                'match fst (fst (fst c)) with 3 => l3_eqb (raw_obs (snd (fst (fst c))) (fst (snd (fst c))) (snd (snd (fst c)))) (snd c) '
                 '| k => l3_eqb (obs (cfg_of k) (snd (fst (fst c))) (fst (snd (fst c))) (snd (snd (fst c)))) (snd c) end) 0 ' + lit)
-        vals = ck.coq_eval(IMPORTS, [expr], name='backends', preamble=PRE)
+        return lo, ck.coq_eval(IMPORTS, [expr], name=f'backends{lo}', preamble=PRE)
+
+    for lo, vals in _parallel(batch, range(0, len(cases), 60)):
         if vals is None:
             ck.obligation('correspondence:backends', False, 'model could not be evaluated')
             ck.tie_broken.append('correspondence backends: model evaluation failed')
             return
         bad += [lo + i for i in parse_coq_N_list(vals[0])]
+    bad.sort()
+    ck.extra['corr_backends_coq_s'] = round(time.time() - _t0, 1)
     ck.obligation('correspondence:backends', not bad,
                   f'{len(cases)} (backend, file set, queries, folders) cases: generated model (vm_compute) vs real '
                   f'Virtual/Zip/VPK/Raw file systems: {len(bad)} disagreements')
@@ -292,7 +398,7 @@ def corr_backends(ck: Ck, root: str) -> None:
 
 def corr_chain(ck: Ck, root: str) -> None:
     from srctools.filesys import FileSystemChain
-    n = ck.budget(60, 600)
+    n = ck.budget(50, 400)
     cases = []
     for i in range(n):
         rng = ck.rng
@@ -310,7 +416,7 @@ def corr_chain(ck: Ck, root: str) -> None:
                 pfx = ''
                 if dirs and rng.random() < 0.6:
                     d = rng.choice(dirs)
-                    pfx = rng.choice([d, d, d + '/', _recase(rng, d), d.replace('/', '\\')])
+                    pfx = rng.choice([d, d, d + '/', _recase(rng, d), d.replace('/', '\\'), './' + d, d + '/.'])
                 members.append((kind, j, pfx, rng.random() < 0.3))
             ch = FileSystemChain()
             for kind, j, pfx, prio in members:
@@ -319,7 +425,7 @@ def corr_chain(ck: Ck, root: str) -> None:
             for kind, j, pfx, _ in members:
                 for nm, _b in rng.sample(sets[j], min(2, len(sets[j]))):
                     qs.append(nm)
-                    p = fold(pfx).rstrip('/')
+                    p = _pfx(pfx)
                     if p and fold(nm).startswith(p + '/'):
                         qs.append(_recase(rng, nm[len(p) + 1:]))
                         qs.append(nm[len(p) + 1:].replace('/', '\\'))
@@ -343,6 +449,12 @@ def corr_chain(ck: Ck, root: str) -> None:
                     with fl.open_bin() as fh:
                         w += [coq_str(fl.path), coq_bytes(fh.read())]
                 walks.append(w)
+            for f in folders:       # walk_folder_repeat: every member's listing, in member order
+                w = []
+                for fl in ch.walk_folder_repeat(f):
+                    with fl.open_bin() as fh:
+                        w += [coq_str(fl.path), coq_bytes(fh.read())]
+                walks.append(w)
             ms_lit = coq_list(
                 f'(({BACKENDS.index(kind)}, {_files_lit(builts[j].vpk_order if kind == "vpk" else sets[j])}, {coq_str(pfx)}), {"true" if prio else "false"})'
                 for kind, j, pfx, prio in members)
@@ -351,7 +463,7 @@ def corr_chain(ck: Ck, root: str) -> None:
                           {'members(kind,set,prefix,priority)': members, 'sets': [[a for a, _ in s] for s in sets], 'queries': qs,
                            'folders': folders, 'impl_get': [None if g is None else g.decode() for g in gets]}))
             ck.count('corr_chain_cases')
-            ck.count('corr_chain_observations', len(qs) + len(folders))
+            ck.count('corr_chain_observations', len(qs) + 2 * len(folders))
             ck.hist('corr_chain_members', len(members))
             if len(members) > 1 and any(g is not None for g in gets):
                 ck.seen(('corrchain', tuple(members), tuple(tuple(a for a, _ in s) for s in sets), tuple(qs)))
@@ -364,20 +476,24 @@ def corr_chain(ck: Ck, root: str) -> None:
     if cases:
         ck.sample({'chain_correspondence_case': cases[min(3, len(cases) - 1)][1]})
     bad: list[int] = []
-    for lo in range(0, len(cases), 80):
-        part = cases[lo:lo + 80]
+
+    def batch(lo: int):
+        part = cases[lo:lo + 40]
         lit = coq_list(c for c, _ in part)
         expr = ('bad_idx (fun c : (list ((N * list file * str) * bool) * (list str * list str)) * list (list (list N)) => '
                 'l3_eqb (chain_obs (fst (fst c)) (fst (snd (fst c))) (snd (snd (fst c)))) (snd c)) 0 ' + lit)
-        vals = ck.coq_eval(IMPORTS, [expr], name='chain', preamble=PRE)
+        return lo, ck.coq_eval(IMPORTS, [expr], name=f'chain{lo}', preamble=PRE)
+
+    for lo, vals in _parallel(batch, range(0, len(cases), 40)):
         if vals is None:
             ck.obligation('correspondence:chain', False, 'model could not be evaluated')
             ck.tie_broken.append('correspondence chain: model evaluation failed')
             return
         bad += [lo + i for i in parse_coq_N_list(vals[0])]
+    bad.sort()
     ck.obligation('correspondence:chain', not bad,
                   f'{len(cases)} chains (1-4 members over Virtual/Zip/VPK, prefixes, priority flags): generated model vs '
-                  f'FileSystemChain _get_file / walk_folder: {len(bad)} disagreements')
+                  f'FileSystemChain _get_file / walk_folder / walk_folder_repeat: {len(bad)} disagreements')
     if bad:
         ck.tie_broken.append('correspondence chain (SM/FsChain.v chain_get/chain_walk vs srctools.filesys.FileSystemChain)')
         ck.extra['chain_disagreement'] = min((cases[i][1] for i in bad), key=lambda d: len(repr(d)))
@@ -408,6 +524,14 @@ def check_backends(root: str, files, rng: random.Random, stats=None) -> list[tup
                 cls = 'exact' if q == nm else ('slash-variant' if q.replace('\\', '/') == nm else
                                                ('case-variant' if '\\' not in q else 'case-and-slash-variant'))
                 queries.append((q, cls, nm))
+        # the same path with redundant separators / dot segments (2 stored names per set, every class, both slash kinds)
+        pqueries: list[tuple[str, str, str]] = []
+        for nm, _ in files[:2]:
+            for q, cls in path_spellings(rng, nm):
+                pqueries.append((q, 'unnormalised-' + cls, nm))
+                if rng.random() < 0.3:
+                    pqueries.append((_recase(rng, q), 'unnormalised-' + cls, nm))
+        queries += pqueries
         absent = ['nonexistent.txt', files[0][0] + 'x', files[0][0][:-1]] + sorted({nm.split('/')[0] for nm, _ in files if '/' in nm})
         absent = [q for q in absent if fold(q) not in sm]
         for name in ['virtual', 'zip', 'vpk']:
@@ -429,12 +553,21 @@ def check_backends(root: str, files, rng: random.Random, stats=None) -> list[tup
                 if ex is not False or got is not None or op is not None:
                     out.append((f'lookup-{name}-phantom', f'{name}: {q!r} is not a stored file but exists={ex!r} get={got!r}',
                                 {'op': 'lookup', 'backend': name, 'files': fj, 'query': q, 'expected_bytes': None}))
-        # raw: exact names
-        for nm, b in files:
-            ex, got, op = impl_lookup(bt.fs['raw'], nm)
+        # raw: exact-case names, either slash kind, redundant separators / dot segments
+        rawq = [(nm, 'exact', nm) for nm, _ in files]
+        rawq += [(nm.replace('/', '\\'), 'slash-variant', nm) for nm, _ in files if '/' in nm]
+        rawq += pqueries
+        dfiles = dict(files)
+        for q, cls, nm in rawq:
+            if cls.startswith('unnormalised') and os.path.normpath(q.replace('\\', '/')) != nm:
+                continue      # a re-cased spelling: the directory backend is exact-case
+            b = dfiles[nm]
+            ex, got, op = impl_lookup(bt.fs['raw'], q)
+            if stats is not None:
+                stats('lookup_observations', 3)
             if ex is not True or got != b or op != b:
-                out.append(('lookup-raw-exact', f'raw: {nm!r}: exists={ex!r} get={got!r}',
-                            {'op': 'lookup', 'backend': 'raw', 'files': fj, 'query': nm, 'expected_bytes': [b.decode()]}))
+                out.append((f'lookup-raw-{cls}', f'raw: stored {nm!r} queried as {q!r}: exists={ex!r} get={got!r} open={op!r}',
+                            {'op': 'lookup', 'backend': 'raw', 'files': fj, 'query': q, 'expected_bytes': [b.decode()]}))
         for q in absent:
             ex, got, op = impl_lookup(bt.fs['raw'], q)
             if ex is not False or got is not None:
@@ -450,8 +583,8 @@ def check_backends(root: str, files, rng: random.Random, stats=None) -> list[tup
         # ---- walks
         for folder, fcls in folder_candidates(rng, files):
             for name in BACKENDS:
-                if name == 'raw' and fcls in ('case-variant', 'backslash'):
-                    continue     # the directory backend is exact-case (and '\\' is no separator on this platform)
+                if name == 'raw' and fcls == 'case-variant':
+                    continue     # the directory backend is exact-case
                 w = impl_walk(bt.fs[name], folder)
                 if stats is not None:
                     stats('walk_observations', 1)
@@ -460,7 +593,8 @@ def check_backends(root: str, files, rng: random.Random, stats=None) -> list[tup
                                 {'op': 'walk', 'backend': name, 'files': fj, 'folder': folder}))
                     continue
                 if name == 'raw':
-                    fe = folder.rstrip('/')
+                    fe = os.path.normpath(folder.replace('\\', '/')) if fcls.startswith('unnormalised') else folder.replace('\\', '/').rstrip('/')
+                    fe = '' if fe == '.' else fe
                     exp = sorted(nm for nm, _ in files if fe == '' or nm.startswith(fe + '/'))
                     gotn = sorted(w)
                     cmp_got, cmp_exp = gotn, exp
@@ -473,6 +607,8 @@ def check_backends(root: str, files, rng: random.Random, stats=None) -> list[tup
                     dup = len(set(cmp_got)) != len(cmp_got)
                     if dup and not extra and not missing:
                         kind = 'lists-a-name-twice'
+                    elif fcls.startswith('unnormalised'):
+                        kind = 'folder-' + fcls
                     elif fcls == 'root':
                         kind = 'root-folder-incomplete'
                     elif extra and fcls == 'partial-name':
@@ -511,6 +647,51 @@ def check_backends(root: str, files, rng: random.Random, stats=None) -> list[tup
     return out
 
 
+# ------------------------------------------------------------------------------------------------ oracle: non-ASCII letter case
+NONASCII_SETS = [
+    [('Straße/Größe.txt', b'1'), ('Straße/b.txt', b'2'), ('ÉCOLE/élève.vmt', b'3'), ('top.txt', b'4')],
+    [('ΣΊΣΥΦΟΣ/ς.txt', b'1'), ('İstanbul/ı.txt', b'2')],
+    [('ǅ/ǆ.txt', b'1'), ('ﬁle/ﬂ.txt', b'2')],
+]
+
+
+def check_nonascii(root: str, files, rng: random.Random, stats=None) -> list[tuple[str, str, dict]]:
+    """Letter case beyond ASCII (str.casefold: 'ß' = 'ss' = 'SS', final sigma, ligatures): the in-memory and zip
+    backends must agree with the reference; VPK cannot hold such names (ASCII only), the directory backend is exact-case."""
+    out: list[tuple[str, str, dict]] = []
+    bt = Built(root, files, ['virtual', 'zip', 'raw'])
+    fj = [(a, b.decode()) for a, b in files]
+    try:
+        sm = spec_map(files)
+        for nm, b in files:
+            for q in dict.fromkeys([nm, nm.upper(), nm.lower(), nm.casefold(), nm.swapcase(), _recase(rng, nm), nm.upper().replace('/', '\\')]):
+                for name in ('virtual', 'zip'):
+                    ex, got, op = impl_lookup(bt.fs[name], q)
+                    if stats is not None:
+                        stats('lookup_observations', 3)
+                    want = {x for _, x in sm[fold(q)]} if fold(q) in sm else {None}
+                    if got not in want or op not in want or ex is not (None not in want):
+                        out.append((f'lookup-{name}-nonascii-case-variant', f'{name}: stored {nm!r} queried as {q!r}: exists={ex!r} get={got!r} open={op!r}',
+                                    {'op': 'nonascii', 'files': fj}))
+            ex, got, op = impl_lookup(bt.fs['raw'], nm)
+            if got != b:
+                out.append(('lookup-raw-nonascii-exact', f'raw: {nm!r}: exists={ex!r} get={got!r}', {'op': 'nonascii', 'files': fj}))
+        dirs = sorted({nm.split('/')[0] for nm, _ in files if '/' in nm})
+        for d in dirs:
+            for f in dict.fromkeys([d, d.upper(), d.lower(), d.casefold(), d.upper() + '/']):
+                exp = sorted(k for k in sm if spec_inside(f, k))
+                for name in ('virtual', 'zip'):
+                    w = impl_walk(bt.fs[name], f)
+                    if stats is not None:
+                        stats('walk_observations', 1)
+                    if isinstance(w, str) or sorted(fold(p) for p in w) != exp:
+                        out.append((f'walk-{name}-nonascii-case', f'{name}.walk_folder({f!r}) listed {w}, expected (folded) {exp}',
+                                    {'op': 'nonascii', 'files': fj}))
+    finally:
+        bt.close()
+    return out
+
+
 # ------------------------------------------------------------------------------------------------ oracle: chains
 def check_chain(root: str, sets, members, rng: random.Random, stats=None) -> list[tuple[str, str, dict]]:
     """members: [(backend kind, set index, prefix, priority)]. Reference computed from the file sets only."""
@@ -530,7 +711,7 @@ def check_chain(root: str, sets, members, rng: random.Random, stats=None) -> lis
         sms = [spec_map(s) for s in sets]
 
         def member_has(kind, j, pfx, q):
-            p = fold(pfx).rstrip('/')
+            p = _pfx(pfx)
             full = (p + '/' if p else '') + fold(q)
             if kind == 'raw':
                 # exact-case backend: only exact spellings (the generator asks raw members with exact names)
@@ -542,7 +723,7 @@ def check_chain(root: str, sets, members, rng: random.Random, stats=None) -> lis
         # queries: names relative to each member's prefix, in several spellings
         qs: list[str] = []
         for kind, j, pfx, _ in members:
-            p = fold(pfx).rstrip('/')
+            p = _pfx(pfx)
             for nm, _b in sets[j]:
                 if not p:
                     qs.append(nm)
@@ -578,7 +759,7 @@ def check_chain(root: str, sets, members, rng: random.Random, stats=None) -> lis
         else:
             folders = [('', 'root')]
             for kind, j, pfx, _ in members[:2]:
-                p = fold(pfx).rstrip('/')
+                p = _pfx(pfx)
                 for f, c in folder_candidates(rng, sets[j]):
                     if c in ('exact', 'case-variant', 'trailing-slash') and p and fold(f).startswith(p + '/'):
                         folders.append((f[len(p) + 1:], c))
@@ -588,7 +769,7 @@ def check_chain(root: str, sets, members, rng: random.Random, stats=None) -> lis
         for folder, fcls in folders:
             exp: dict[str, set] = {}
             for kind, j, pfx in order:
-                p = fold(pfx).rstrip('/')
+                p = _pfx(pfx)
                 names = [n for n, _ in sets[j]] if kind == 'raw' else list(sms[j])
                 for k in names:
                     fk = fold(k)
@@ -619,6 +800,41 @@ def check_chain(root: str, sets, members, rng: random.Random, stats=None) -> lis
                 continue
             if stats is not None:
                 stats('chain_walk_observations', 1)
+            # walk_folder_repeat: every member's own listing in member order; the de-duplicated walk keeps, for every
+            # name, the first of those
+            try:
+                rep_listed = []
+                for fl in ch.walk_folder_repeat(folder):
+                    with fl.open_bin() as fh:
+                        rep_listed.append((fl.path, fh.read()))
+            except Exception as e:      # noqa: BLE001
+                out.append(('chain-walk-repeat-exception', f'chain.walk_folder_repeat({folder!r}) raised {type(e).__name__}: {e}', dict(rep, folder=folder)))
+                rep_listed = None
+            if rep_listed is not None:
+                exp_multi: list[str] = []
+                for kind, j, pfx in order:
+                    p = _pfx(pfx)
+                    if kind == 'raw':
+                        pe = pfx.rstrip('/')
+                        fe = ((pe + '/' if pe else '') + folder.rstrip('/')).rstrip('/')
+                        exp_multi += [fold(k[len(pe) + 1:] if pe else k) for k, _ in sets[j] if not fe or k.startswith(fe + '/')]
+                    else:
+                        for fk in sms[j]:
+                            if p and not fk.startswith(p + '/'):
+                                continue
+                            relk = fk[len(p) + 1:] if p else fk
+                            if spec_inside(folder, relk):
+                                exp_multi.append(relk)
+                if sorted(fold(p) for p, _ in rep_listed) != sorted(exp_multi):
+                    out.append(('chain-walk-repeat-wrong-listing', f'chain.walk_folder_repeat({folder!r}) listed {sorted(fold(p) for p, _ in rep_listed)}, '
+                                f'the members hold {sorted(exp_multi)}', dict(rep, folder=folder)))
+                else:
+                    first: dict[str, tuple[str, bytes]] = {}
+                    for p, b in rep_listed:
+                        first.setdefault(fold(p), (p, b))
+                    if listed != list(first.values()):
+                        out.append(('chain-walk-dedup-is-not-first-of-repeat', f'chain.walk_folder({folder!r}) listed {listed}, the first entries of '
+                                    f'walk_folder_repeat are {list(first.values())}', dict(rep, folder=folder)))
             got_keys = [fold(p) for p, _ in listed]
             kinds = sorted({k for k, *_ in members})
             if any(p.startswith('../') or '/../' in p for p, _ in listed):
@@ -664,7 +880,7 @@ def gen_chain(rng: random.Random):
         pfx = ''
         if dirs and rng.random() < 0.6:
             d = rng.choice(dirs)
-            pfx = d if (kind == 'raw' or use_raw) else rng.choice([d, d, d + '/', _recase(rng, d), d.replace('/', '\\')])
+            pfx = d if (kind == 'raw' or use_raw) else rng.choice([d, d, d + '/', _recase(rng, d), d.replace('/', '\\'), './' + d, d + '/.'])
         members.append((kind, j, pfx, rng.random() < 0.3))
     return sets, members
 
@@ -703,7 +919,7 @@ def search(ck: Ck, root: str) -> None:
             if key not in found or size < len(repr(found[key][1])):
                 found[key] = (what, rep)
 
-    n = ck.budget(80, 400)
+    n = ck.budget(70, 300)
     for i in range(n):
         files = CORPUS_SETS[i] if i < len(CORPUS_SETS) else gen_files(ck.rng)
         if not files:
@@ -722,10 +938,13 @@ def search(ck: Ck, root: str) -> None:
             small = shrink_files(files, lambda fs, key=key: any(k == key for k, _, _ in check_backends(root, fs, random.Random(seed))))
             v2 = [x for x in check_backends(root, small, random.Random(seed)) if x[0] == key]
             note(v2 or [x for x in v if x[0] == key])
+    for files in NONASCII_SETS:
+        ck.count('file_sets_nonascii')
+        note(check_nonascii(root, files, random.Random(ck.rng.randrange(1 << 30)), stats))
     ck.sample({'file_set': [nm for nm, _ in CORPUS_SETS[0]], 'folder_arguments': folder_candidates(random.Random(1), CORPUS_SETS[0])[:12],
                'query_spellings_of_first': spellings(random.Random(1), CORPUS_SETS[0][0][0])})
     # chains: random members; for small chains every ordering
-    m = ck.budget(80, 500)
+    m = ck.budget(70, 350)
     for i in range(m):
         g = CORPUS_CHAINS[i] if i < len(CORPUS_CHAINS) else gen_chain(ck.rng)
         if g is None:
@@ -755,14 +974,20 @@ def run(ck: Ck) -> None:
     ck.rule = ('file sets: 1-8 names built from a small vocabulary of folder and file names with mixed case, nesting 0-3, '
                'names that are string prefixes of others (mat / materials), dot-files, extension-less names and (15%) duplicates '
                'differing only in case; queries: exact, lower, upper, swapped and random case, each with /, \\ and mixed '
-               'separators, plus absent names; folders: root, every ancestor folder exact / trailing slash / re-cased / '
-               'backslashed / truncated (no folder boundary), file names, missing; chains: 1-4 members over 1-3 file sets, '
-               'optional subfolder prefix in several spellings, priority flags, every ordering of chains of up to 3 (thorough: 4) members. '
+               'separators, the same path with "./", "//", "/./", "x/../x", a trailing "/" or "/." (each also with backslashes and '
+               're-cased), plus absent names, "", "."; folders: root, every ancestor folder exact / trailing slash / re-cased / '
+               'backslashed / truncated (no folder boundary) / un-normalised (dot, doubled slash, dot-dot, ".", "./"), file names, '
+               'missing; the directory backend gets the exact-case subset in either slash; three fixed non-ASCII sets (ß/SS, final '
+               'sigma, dotted I, ligatures) for the in-memory and zip backends; chains: 1-4 members over 1-3 file sets, optional '
+               'subfolder prefix in several spellings (exact, trailing slash, re-cased, backslashed, "./d", "d/."), priority flags, '
+               'every ordering of chains of up to 3 (thorough: 4) members; walk_folder and walk_folder_repeat. '
                'Distinct = different name list (sets) or member tuple (chains); non-trivial = at least two files / two members.')
     ck.trusted.append('hand-written model SM/FsChain.v interpreted over Gen/FsWalk_gen.v (tied by correspondence on every run)')
     ck.trusted.append('zipfile, srctools.vpk.VPK writer/reader and the OS directory tree used to build the real backends; posixpath')
-    ck.assumptions.append('case folding is modelled for ASCII only; stored names are clean relative paths using "/"')
-    ck.assumptions.append('the platform is POSIX with a case-sensitive file system (RawFileSystem: exact names only)')
+    ck.trusted.append('vpk.py VPK.fileinfos is read only when walk_folder calls it (shape check of its directory pre-filter)')
+    ck.assumptions.append('case folding is modelled for ASCII only (non-ASCII casefold: oracle on the in-memory and zip backends); stored names are clean relative paths using "/"')
+    ck.assumptions.append('the platform is POSIX with a case-sensitive file system (RawFileSystem: exact names only; "\\" is converted by the library, not by the OS)')
+    ck.assumptions.append('composition theorems: member prefixes and the folder argument are empty or clean relative paths (either slash, any case)')
     root = str(ck.scratch)
     ok_t = ck.translate('FsWalk_gen', c19_walk.translate)
     built = ok_t and ck.build(['Props/C19.vo', 'Gen/FsWalk_gen.vo'])
@@ -775,16 +1000,31 @@ def run(ck: Ck) -> None:
             obs[f'{short}_walk_compares_normalised_key'] = f'walk_subject_normalised {cfg}'
             obs[f'{short}_walk_case_insensitive'] = f'negb (folder_not_folded {cfg})'
             obs[f'{short}_walk_sound_form'] = f'walk_ok {cfg}'
+            obs[f'{short}_walk_iterates_folded_dict'] = f'walk_over_dict {cfg}'
+            obs[f'{short}_walk_no_exact_case_prefilter'] = f'negb (prefilter_case_sensitive {cfg})'
         obs['virtual_walk_root_is_not_dot'] = 'negb (folder_root_is_dot virtual_cfg)'
+        for short, cfg in (('virtual', 'virtual_cfg'), ('zip', 'zip_cfg'), ('vpk', 'vpk_cfg')):
+            obs[f'{short}_keys_normalise_every_spelling'] = f'backend_keys_norm {cfg}'
         obs['raw_delegates_to_os'] = 'raw_is_os_exact'
-        obs['chain_priority_inserts_first'] = 'Nat.eqb chain_prio_index 0'
+        for what in ('get', 'exists', 'open', 'walk'):
+            obs[f'raw_{what}_converts_slashes_only'] = f'raw_ops_ok raw_{what}_ops'
+        obs['chain_priority_inserts_first'] = 'match chain_prio_action with InsertAt O => true | _ => false end'
+        obs['chain_plain_appends_last'] = 'match chain_plain_action with Append => true | _ => false end'
         obs['chain_get_in_member_order'] = 'chain_get_forward'
         obs['chain_get_joins_prefix'] = 'match chain_get_join_ops with cons OSlash nil => true | _ => false end'
         obs['chain_walk_in_member_order'] = 'chain_walk_forward'
         obs['chain_walk_joins_prefix'] = 'match chain_walk_join_ops with cons OSlash nil => true | _ => false end'
         obs['chain_dedup_ignores_case'] = 'andb (forallb is_sf chain_dedup_ops) (has_fold chain_dedup_ops)'
+        obs['chain_dedup_keeps_first_member'] = 'match chain_dedup_mode with DedupSkip => true | DedupOverwrite => false end'
         obs['chain_walk_names_relative_to_prefix'] = 'match chain_relmode with RelDropSegs => true | RelPath => false end'
         ck.instance_obligations(IMPORTS, obs)
+        # the composition theorem instantiated at the generated configuration (type-checks only if today's chain
+        # de-duplicates by skipping, lists prefix-relative names and every backend form is sound)
+        rc, out = ck.coq_scratch(''.join(f'Require Import {i}.\n' for i in IMPORTS + ['SV.SM.FsChainProofs', 'SV.SM.FsChainCompose', 'SV.Props.C19'])
+                                 + INSTANCE_THEOREM, 'inst_compose', 300)
+        ck.obligation('instance-theorem:chain_walk_lookup_closed', rc == 0,
+                      'c19_chain_walk_lookup_closed applied to chain_walk_mode chain_dedup_mode chain_relmode chain_dedup_ops over '
+                      'members built from virtual_cfg / zip_cfg / vpk_cfg' + ('' if rc == 0 else ': ' + out[-400:]))
         import time as _t
         t0 = _t.time(); corr_backends(ck, root); t1 = _t.time(); corr_chain(ck, root); t2 = _t.time()
         ck.extra['stage_seconds'] = {'corr_backends': round(t1 - t0, 1), 'corr_chain': round(t2 - t1, 1)}
@@ -805,14 +1045,29 @@ def run(ck: Ck) -> None:
             ck.explain(f'instance:{short}_walk_compares_normalised_key')
         if any_key(f'walk-{short}-'):
             ck.explain(f'instance:{short}_walk_sound_form')
+            ck.explain(f'instance:{short}_walk_iterates_folded_dict')
+            ck.explain(f'instance:{short}_walk_compares_normalised_key')
+        if any_key(f'walk-{short}-case-sensitive', f'walk-{short}-misses', f'walk-{short}-backslash'):
+            ck.explain(f'instance:{short}_walk_no_exact_case_prefilter')
         if any_key(f'lookup-{short}-'):
             ck.explain(f'instance:{short}_keys_case_and_slash_insensitive')
+        if any_key(f'lookup-{short}-unnormalised', f'walk-{short}-folder-unnormalised'):
+            ck.explain(f'instance:{short}_keys_normalise_every_spelling')
+    for what, sub in (('get', 'lookup-raw-'), ('exists', 'lookup-raw-'), ('open', 'lookup-raw-'), ('walk', 'walk-raw-')):
+        if any_key(sub):
+            ck.explain(f'instance:raw_{what}_converts_slashes_only')
     if any_key('chain-walk-name-not-relative-to-prefix'):
         ck.explain('instance:chain_walk_names_relative_to_prefix')
     if any_key('chain-get-not-first-match'):
         ck.explain('instance:chain_get_in_member_order')
         ck.explain('instance:chain_priority_inserts_first')
+        ck.explain('instance:chain_plain_appends_last')
         ck.explain('instance:chain_get_joins_prefix')
+    if any_key('chain-walk-entry-not-from-first-member', 'chain-walk-listed-name-not-found', 'chain-walk-dedup-is-not-first-of-repeat'):
+        ck.explain('instance:chain_dedup_keeps_first_member')
+    if any_key('chain-walk-', 'chain-get-', 'walk-virtual-', 'walk-zip-', 'walk-vpk-', 'lookup-virtual-', 'lookup-zip-', 'lookup-vpk-'):
+        # the composition theorem needs sound backends, skip-de-duplication and prefix-relative names
+        ck.explain('instance-theorem:chain_walk_lookup_closed')
     if any_key('chain-walk-'):
         ck.explain('instance:chain_walk_in_member_order')
         ck.explain('instance:chain_dedup_ignores_case')
@@ -838,6 +1093,10 @@ def replay(data: dict) -> int:
                 if k == data.get('key'):
                     print('REPRODUCED', k, '-', what)
                     break
+        elif r.get('op') == 'nonascii':
+            files = [(a, b.encode()) for a, b in r['files']]
+            for k, what, _ in check_nonascii(root, files, random.Random(data.get('seed', 0))):
+                print('FOUND', k, '-', what)
         elif r.get('op') == 'chain':
             sets = [[(a, b.encode()) for a, b in s] for s in r['sets']]
             members = [tuple(m) for m in r['members']]
